@@ -201,3 +201,12 @@ def cex_c06(obl, results, env):
     if 'imeout' in obl['id']:
         return cex_c11(obl, results, env)
     return cex_c07(obl, results, env)
+
+
+def cex_cert(obl, results, env):
+    """C01 / C03: the adversarial certificate corpus on the real verifiers"""
+    import validate
+    try:
+        return _first_fail(validate.cert_corpus(env))
+    except driver.Undecided:
+        return None
